@@ -330,6 +330,13 @@ def _run_case(case):
                     r.bad(f'C16/{tag}/{pname}-second-parse-sees-callers-edits', '')
         except Exception as e:
             r.bad(f'C16/{tag}/{pname}-second-parse-raised/{type(e).__name__}', repr(e)[:200])
+    # the returned name belongs to the caller: edited in place here, which must not show in any later issuance
+    try:
+        for comp_ in name:
+            if isinstance(comp_, bytearray) and len(comp_) > 2:
+                comp_[-1] ^= 0x01
+    except Exception:
+        pass
     shrink = P.reserved_size(spec) - len(sig)
     outer = T.num_size(len(wire) - 1 - T.num_size(T.single(wire)[3] - T.single(wire)[2]))
     near = abs(len(wire) - 253) <= 8
